@@ -1,4 +1,5 @@
-//! C19 — bit-level primitives vs two's complement / IEEE-754, and vs the Lean model `RbModel.Bits`.
+//! C19 — bit-level primitives vs two's complement / IEEE-754, and vs the Lean model `RbModel.Bits`
+//! (integers: bit vectors; doubles: the 64-bit pattern split into 8 bytes, least significant first, and joined back).
 
 use rb_harness::driver::ask;
 use rb_harness::json::J;
@@ -56,9 +57,10 @@ fn main() {
     let mut rep = Report::new(
         "C19",
         "unary functions and byte conversions: all 65536 INTEGER values (class = value); binary AND/OR: all pairs of the \
-         boundary/one-hot/complement set plus random pairs (class = operand pair); doubles: powers of two, boundary \
-         mantissas, subnormals, huge values, random bit patterns (class = bit pattern); program-level AND/OR/NOT/PEEK/POKE/\
-         MKD$/CVD through the in-memory interpreter hook (class = program text). A case is non-trivial unless every operand is 0.",
+         boundary/one-hot/complement set plus random pairs (class = operand pair); doubles: all powers of two, boundary \
+         mantissas x boundary exponents, subnormals, values beyond 2^63, +-0, infinities, NaN patterns, random bit patterns \
+         (class = bit pattern); program-level AND/OR/NOT/PEEK/POKE and MKD$/CVD (8 arbitrary bytes; doubles computed by \
+         repeated doubling/halving) through the in-memory interpreter hook (class = program text). A case is non-trivial unless every operand is 0.",
     );
     let thorough = rep.is_thorough();
 
@@ -255,35 +257,103 @@ fn main() {
         }
     }
 
-    // ---- 4. doubles: MKD$/CVD vs IEEE-754 ------------------------------------------------------
-    let mut doubles: Vec<f64> = vec![0.0, 1.0, -1.0, 2.0, 0.5, 1.5, -2.5, 3.141592653589793, 1e10, 1e-10, 123456.789, -0.1];
-    for e in -1022..=1023 {
-        doubles.push(2f64.powi(e));
-        doubles.push(-2f64.powi(e) * 1.5);
+    // ---- 4. doubles: MKD$/CVD vs IEEE-754 and vs the Lean model (RbModel.Bits.f64ToBytes / bytesToF64) ----
+    // A double is identified by its bit pattern w; `structured` patterns get the full treatment (bytes,
+    // inverse, model fields -> IEEE value), random ones bytes and inverse.
+    let mut structured: Vec<u64> = vec![];
+    for f in [0.0, 1.0, -1.0, 2.0, 0.5, 1.5, -2.5, 3.141592653589793, 1e10, 1e-10, 123456.789, -0.1f64] {
+        structured.push(f.to_bits());
     }
-    for m in [0u64, 1, 2, 0xF_FFFF_FFFF_FFFF, 0xF_FFFF_FFFF_FFFE, 0x8_0000_0000_0000, 0x5_5555_5555_5555] {
-        for e in [1u64, 2, 1000, 1022, 1023, 1024, 1075, 1085, 1086, 2000, 2046] {
-            doubles.push(f64::from_bits((e << 52) | m));
-            doubles.push(f64::from_bits((1u64 << 63) | (e << 52) | m));
+    // all powers of two, normal (2^-1022 .. 2^1023) and subnormal (2^-1074 .. 2^-1023), both signs, and 1.5 * them
+    for e in 1u64..=2046 {
+        for sign in [0u64, 1 << 63] {
+            structured.push(sign | (e << 52));
+            structured.push(sign | (e << 52) | (1 << 51));
         }
     }
-    // subnormals and values beyond 2^63 (known-bad regions, F12)
-    for m in [1u64, 2, 0x8_0000_0000_0000, 0xF_FFFF_FFFF_FFFF] {
-        doubles.push(f64::from_bits(m));
-    }
-    doubles.push(9.223372036854775808e18);
-    doubles.push(1.6e20);
-    doubles.push(-1e300);
-    let n_rand = if thorough { 1_000_000 } else { 50_000 };
-    for _ in 0..n_rand {
-        let bits = rng.next_u64();
-        let f = f64::from_bits(bits);
-        if f.is_finite() {
-            doubles.push(f);
+    for k in 0..52 {
+        for sign in [0u64, 1 << 63] {
+            structured.push(sign | (1u64 << k));
+            structured.push(sign | (1u64 << k) | ((1u64 << k) >> 1));
         }
     }
-    for f in doubles {
-        let class = if f == 0.0 {
+    // boundary mantissas x boundary exponents (0 = zero/subnormal, 2047 = infinity/NaN, 1086.. = beyond 2^63)
+    for m in [0u64, 1, 2, 3, 0xF_FFFF_FFFF_FFFF, 0xF_FFFF_FFFF_FFFE, 0x8_0000_0000_0000, 0x8_0000_0000_0001,
+        0x7_FFFF_FFFF_FFFF, 0x5_5555_5555_5555, 0xA_AAAA_AAAA_AAAA, 0x0_0000_0000_00FF, 0x0_0000_0001_0000,
+        0xF_0000_0000_0000, 0x0_FFFF_FFFF_FFFF]
+    {
+        for e in [0u64, 1, 2, 3, 1000, 1022, 1023, 1024, 1074, 1075, 1076, 1085, 1086, 1087, 1100, 2000, 2045, 2046, 2047] {
+            structured.push((e << 52) | m);
+            structured.push((1u64 << 63) | (e << 52) | m);
+        }
+    }
+    // the recorded failing inputs of F12a-c, the extremes, one-hot patterns and their complements
+    for f in [9.223372036854775808e18, -9.223372036854775808e18, 1.6e20, -1e300, f64::MAX, f64::MIN, f64::MIN_POSITIVE,
+        f64::EPSILON, f64::INFINITY, f64::NEG_INFINITY, -0.0, 5e-324, -5e-324, 2.2250738585072009e-308f64]
+    {
+        structured.push(f.to_bits());
+    }
+    structured.push(f64::NAN.to_bits());
+    structured.push(0x7FF0_0000_0000_0001); // signalling NaN, payload 1
+    structured.push(0xFFF0_0000_0000_0001);
+    structured.push(0x7FF8_0000_0000_0000); // quiet NaN
+    structured.push(0xFFF8_0000_0000_0000);
+    structured.push(0x7FFF_FFFF_FFFF_FFFF);
+    structured.push(0xFFFF_FFFF_FFFF_FFFF);
+    structured.push(0x7FF4_0000_DEAD_BEEF);
+    for k in 0..64 {
+        structured.push(1u64 << k);
+        structured.push(!(1u64 << k));
+    }
+    structured.sort();
+    structured.dedup();
+    let n_structured = structured.len();
+    rep.exhaustive_parts.push(format!(
+        "f64_to_bytes/bytes_to_f64 over all {} structured bit patterns: every power of two 2^-1074..2^1023 and 1.5x it \
+         (both signs), 15 boundary mantissas x 19 boundary exponents (incl. subnormal, beyond 2^63, infinity, NaN), +-0, \
+         extremes, one-hot patterns and complements",
+        n_structured
+    ));
+    let n_rand = if thorough { 2_000_000 } else { 250_000 };
+    let mut patterns = structured;
+    for k in 0..n_rand {
+        let mut w = rng.next_u64();
+        // uniformly random patterns are almost never subnormal / infinite / NaN: force the exponent field now and then
+        match k % 16 {
+            0 => w &= !(0x7FFu64 << 52),                  // zero / subnormal
+            1 => w |= 0x7FFu64 << 52,                     // infinity / NaN
+            2 => w = (w & !(0x7FFu64 << 52)) | ((1086 + (w >> 52) % 961) << 52), // |x| >= 2^63
+            _ => {}
+        }
+        patterns.push(w);
+    }
+    let le = |w: u64| -> [u8; 8] { std::array::from_fn(|i| ((w >> (8 * i)) & 0xFF) as u8) };
+    let mut reqs: Vec<String> = Vec::with_capacity(patterns.len() * 2 + n_structured);
+    for (k, w) in patterns.iter().enumerate() {
+        reqs.push(format!("(bits.f64ToBytes {})", w));
+        reqs.push(format!("(bits.f64FromBytes {})", sx::ints(le(*w).iter())));
+        if k < n_structured {
+            reqs.push(format!("(bits.f64Fields {})", w));
+        }
+    }
+    let answers = ask(&reqs);
+    let pow2 = |j: i32| -> f64 {
+        // exact: every intermediate is a power of two within the normal range (|j| <= 1023)
+        let mut p = 1.0f64;
+        for _ in 0..j.abs() {
+            p *= if j > 0 { 2.0 } else { 0.5 };
+        }
+        p
+    };
+    let mut nan_altered = 0u64;
+    let mut at = 0usize;
+    for (k, &w) in patterns.iter().enumerate() {
+        let f = std::hint::black_box(f64::from_bits(std::hint::black_box(w)));
+        let class = if f.is_nan() {
+            "nan"
+        } else if f.is_infinite() {
+            "infinity"
+        } else if f == 0.0 {
             "zero"
         } else if !f.is_normal() {
             "subnormal"
@@ -292,42 +362,205 @@ fn main() {
         } else {
             "normal<2^63"
         };
-        rep.case(if f == 0.0 { None } else { Some(format!("d{:016x}", f.to_bits())) });
+        rep.case(if w == 0 { None } else { Some(format!("d{:016x}", w)) });
         rep.bump(&format!("double.{}", class));
-        let ieee = f.to_le_bytes();
+        // NaN patterns: moving a double through a register may set the quiet bit (bit 51) on some platforms (x87);
+        // where the platform's own from_bits/to_bits round trip preserves the pattern (x86-64 SSE2, aarch64: always)
+        // the comparison is exact, otherwise bit 51 is ignored for that pattern and the case is counted.
+        let platform_w = f.to_bits();
+        let mask: u64 = if platform_w == w {
+            !0
+        } else {
+            nan_altered += 1;
+            !(1u64 << 51)
+        };
+        let bytes = le(w); // the property: byte i = (w >> 8i) & 0xFF
+        let reference = f.to_le_bytes(); // Rust's reference encoder
         let got = std::panic::catch_unwind(|| f64_to_bytes(f));
+        let got_w = got.as_ref().ok().map(|b| u64::from_le_bytes(*b));
         let got_s = match &got {
             Ok(b) => format!("{:?}", b),
             Err(_) => "panic".to_owned(),
         };
-        if got_s != format!("{:?}", ieee) {
+        if got_w.map(|g| g & mask) != Some(w & mask) || (mask == !0 && bytes != reference) {
             rep.fail(Failure {
                 kind: Kind::ImplVsProperty,
                 signature: format!("f64_to_bytes:{}", class),
-                input: format!("f64_to_bytes({:e}) [bits {:016x}]", f, f.to_bits()),
-                implementation: got_s,
-                expected: format!("{:?}", ieee),
+                input: format!("f64_to_bytes({:e}) [bits {:016x}]", f, w),
+                implementation: got_s.clone(),
+                expected: format!("{:?} (f64::to_le_bytes: {:?})", bytes, reference),
                 note: "MKD$ must yield the IEEE-754 binary64 bytes, least significant first".into(),
             });
         }
-        let back = std::panic::catch_unwind(|| bytes_to_f64(&ieee));
+        let back = std::panic::catch_unwind(|| bytes_to_f64(&bytes));
         let back_s = match &back {
             Ok(x) => format!("{:016x}", x.to_bits()),
             Err(_) => "panic".to_owned(),
         };
-        // -0.0 and +0.0 are the same BASIC value
-        let want = if f == 0.0 { format!("{:016x}", 0f64.to_bits()) } else { format!("{:016x}", f.to_bits()) };
-        if back_s != want {
+        // exact inverse for every pattern: -0.0, infinities and NaN payloads included
+        if back.as_ref().ok().map(|x| x.to_bits() & mask) != Some(w & mask) {
             rep.fail(Failure {
                 kind: Kind::ImplVsProperty,
                 signature: format!("bytes_to_f64:{}", class),
-                input: format!("bytes_to_f64({:?}) [{:e}]", ieee, f),
-                implementation: back_s,
-                expected: want,
+                input: format!("bytes_to_f64({:?}) [{:e}]", bytes, f),
+                implementation: back_s.clone(),
+                expected: format!("{:016x}", w),
                 note: "CVD must be the exact inverse of the IEEE-754 encoding".into(),
             });
         }
+        // implementation vs model
+        let m_bytes = &answers[at];
+        let m_back = &answers[at + 1];
+        let i_bytes = match &got {
+            Ok(b) if mask == !0 => sx::ints(b.iter()),
+            Ok(b) => sx::ints(le(u64::from_le_bytes(*b) & mask | w & !mask).iter()),
+            Err(_) => "panic".to_owned(),
+        };
+        if *m_bytes != i_bytes {
+            rep.fail(Failure {
+                kind: Kind::ModelVsImpl,
+                signature: "model:f64ToBytes".into(),
+                input: reqs[at].clone(),
+                implementation: i_bytes,
+                expected: m_bytes.clone(),
+                note: "RbModel.Bits.f64ToBytes on the bit pattern of the argument".into(),
+            });
+        }
+        let i_back = match &back {
+            Ok(x) => (x.to_bits() & mask | w & !mask).to_string(),
+            Err(_) => "panic".to_owned(),
+        };
+        if *m_back != i_back {
+            rep.fail(Failure {
+                kind: Kind::ModelVsImpl,
+                signature: "model:bytesToF64".into(),
+                input: reqs[at + 1].clone(),
+                implementation: i_back,
+                expected: m_back.clone(),
+                note: "RbModel.Bits.bytesToF64 vs the bit pattern of the result".into(),
+            });
+        }
+        at += 2;
+        if k < n_structured {
+            // The trusted base, sampled: the value IEEE-754 assigns to the model's fields (sign, exponent, fraction),
+            // computed with exact floating point operations only, is the double Rust's from_bits makes of the pattern.
+            let fields = &answers[at];
+            at += 1;
+            let nums: Vec<u64> = fields
+                .trim_matches(|c| c == '(' || c == ')')
+                .split_whitespace()
+                .filter_map(|t| t.parse().ok())
+                .collect();
+            let ok = if let [s, e, m] = nums[..] {
+                let sign_ok = f.is_sign_negative() == (s == 1) && s <= 1;
+                let value_ok = if e == 2047 {
+                    if m == 0 { f.is_infinite() } else { f.is_nan() }
+                } else if e == 0 {
+                    // m * 2^-1074, in two exact steps (the product is representable, so the last one is exact too)
+                    (m as f64) * pow2(-537) * pow2(-537) == f.abs()
+                } else {
+                    // (2^52 + m) * 2^(e - 1075)
+                    let j = e as i32 - 1075;
+                    ((m + (1u64 << 52)) as f64) * pow2(j / 2) * pow2(j - j / 2) == f.abs()
+                };
+                sign_ok && value_ok && e < 2048 && m < (1u64 << 52)
+            } else {
+                false
+            };
+            rep.bump("double.ieee-value-of-model-fields");
+            if !ok {
+                rep.fail(Failure {
+                    kind: Kind::ModelVsImpl,
+                    signature: "model:f64Fields-ieee-value".into(),
+                    input: reqs[at - 1].clone(),
+                    implementation: format!("f64::from_bits({:016x}) = {:e}", w, f),
+                    expected: fields.clone(),
+                    note: "(-1)^s * (1.f) * 2^(e-1023), subnormal 0.f * 2^-1022, e=2047: infinity/NaN, from RbModel.Bits.f64Sign/f64Exponent/f64Fraction".into(),
+                });
+            }
+        }
     }
-    rep.sample(J::s("f64_to_bytes(3.141592653589793) vs f64::to_le_bytes"));
+    rep.bump_by("double.nan-pattern-altered-by-platform(bit 51 ignored)", nan_altered);
+    rep.sample(J::s(format!("{} -> {}", reqs[0], answers[0])));
+    rep.sample(J::s(format!("{} -> {}", reqs[reqs.len() - 2], answers[reqs.len() - 2])));
+
+    // ---- 5. MKD$ / CVD at program level --------------------------------------------------------
+    // (a) a string of 8 arbitrary bytes S$: MKD$(CVD(S$)) = S$ (string comparison: exact), LEN = 8, and
+    //     CVD(MKD$(X#)) = X# for X# = CVD(S$) (the interpreter compares doubles with a tolerance: a weak observation).
+    // (b) a double computed by arithmetic (an integer scaled by repeated multiplication by 2 or .5#, so that it goes beyond
+    //     2^63 or below 2^-1022): MKD$(X#) is the expected string and CVD(MKD$(X#)) = X#.
+    let n_prog = if thorough { 3000 } else { 300 };
+    for k in 0..n_prog {
+        let w = if k < n_prog / 2 { patterns[(k * 37) % n_structured] } else { patterns[n_structured + k] };
+        let b = le(w);
+        let chrs = |b: &[u8; 8]| b.iter().map(|x| format!("CHR$({})", x)).collect::<Vec<_>>().join(" + ");
+        let text = format!(
+            "S$ = {}\nX# = CVD(S$)\nT$ = MKD$(X#)\nPRINT T$ = S$; LEN(T$); CVD(T$) = X#; CVD(MKD$(-X#)) = -X#\n",
+            chrs(&b)
+        );
+        let out = run_program(&text);
+        rep.case(Some(format!("pd{:016x}", w)));
+        rep.bump("program.cvd-mkd-bytes");
+        let expected = "-1  8 -1 -1";
+        if out != expected {
+            rep.fail(Failure {
+                kind: Kind::ImplVsProperty,
+                signature: "program:cvd-mkd".into(),
+                input: text.clone(),
+                implementation: out,
+                expected: expected.into(),
+                note: "program-level MKD$(CVD(S$)) = S$ for 8 arbitrary bytes, CVD(MKD$(X#)) = X#".into(),
+            });
+        }
+        if k == 0 {
+            rep.sample(J::s(text));
+        }
+    }
+    for k in 0..n_prog {
+        let m = if k % 3 == 0 { 1 + rng.below(15) as i64 } else { rng.range(1, 2_000_000_000) };
+        let m = if k % 2 == 0 { m } else { -m };
+        let up = k % 4 < 2;
+        // a quarter of the programs end among the subnormals (or at zero)
+        let steps = if k % 4 == 3 { 1000 + rng.below(100) as i32 } else { rng.below(1100) as i32 };
+        let mut x = m as f64;
+        for _ in 0..steps {
+            x *= if up { 2.0 } else { 0.5 };
+        }
+        if !x.is_finite() {
+            continue; // overflow is a run-time error of the program, not this property
+        }
+        let b = le(x.to_bits());
+        let text = format!(
+            "X# = {}\nFOR I% = 1 TO {}\nX# = X# * {}\nNEXT\nT$ = MKD$(X#)\nPRINT T$ = {}; LEN(T$); CVD(T$) = X#\n",
+            m,
+            steps,
+            // (not `/ 2`: Variant::divide snaps quotients within 1e-4 of an integer to that integer, which is not this property)
+            if up { "2" } else { ".5#" },
+            b.iter().map(|x| format!("CHR$({})", x)).collect::<Vec<_>>().join(" + ")
+        );
+        let out = run_program(&text);
+        rep.case(Some(format!("pa{},{},{}", m, steps, up)));
+        rep.bump(if x.abs() >= 9.223372036854775808e18 {
+            "program.mkd-of-computed.magnitude>=2^63"
+        } else if !x.is_normal() {
+            "program.mkd-of-computed.subnormal-or-zero"
+        } else {
+            "program.mkd-of-computed.normal<2^63"
+        });
+        let expected = "-1  8 -1";
+        if out != expected {
+            rep.fail(Failure {
+                kind: Kind::ImplVsProperty,
+                signature: "program:mkd-of-computed".into(),
+                input: text.clone(),
+                implementation: out,
+                expected: expected.into(),
+                note: format!("MKD$ of {} scaled {} times by 2 ({:e}) must be the IEEE-754 bytes {:?}", m, steps, x, b),
+            });
+        }
+        if k == 0 {
+            rep.sample(J::s(text));
+        }
+    }
     rep.finish();
 }
